@@ -92,7 +92,7 @@ package db
 //@   opt params=self r db cb
 //@   opt results=done err
 //@   modifies * -M:S_db_KeyCol pos halt
-//@   requires [nonnil] self != nil && cb != nil
+//@   requires [nonnil] self != nil && cb != nil && db != nil
 //@   requires [nohalt] !halt && !searching
 //@   requires [nodewf] tleaf_wf(self)
 //@   requires [cursor] tree_of(pg(self)) == cur_tree && pos == p_lo(pg(self))
@@ -110,7 +110,7 @@ package db
 //@   uses table_tree
 //@   opt results=done err
 //@   modifies * -M:S_db_KeyCol pos halt
-//@   requires l != nil && cb != nil
+//@   requires l != nil && cb != nil && db != nil
 //@   requires !halt && !searching
 //@   requires tree_of(pg(l)) == cur_tree && pos == p_lo(pg(l))
 //@   ensures [all] err == nil && !done ==> pos == p_hi(pg(l)) && !halt
@@ -124,15 +124,16 @@ package db
 // The closure handed to cellIter: open the child page and walk it.
 //@ func (*db.tableInterior).Iter$1
 //@   implements functype db.interiorIterCB
-//@   free-requires cb != nil && !searching
+//@   free-requires cb != nil && db != nil && !searching
 
 // Seam: the node object returned for page p is the faithful decode of page p (newBtree's verified
 // decode contract plus the page-cache invariant of property C08); its identity is abstracted to
 // its page number.
 //@ func (*db.Database).openTable
-//@   props C01 C04 C12
-//@   trusted seam: page cache + decode (see C08, C14)
-//@   modifies * -M:S_db_KeyCol
+//@   props C01 C04 C08 C12
+//@   modifies * -M:S_db_KeyCol hdr_valid
+//@   requires db != nil
+//@   ensures [current] err == nil ==> r0 != nil && repr(r0, page, db.header.ChangeCounter) && db.header.ChangeCounter == cc_now && CACHE_OK(db) && !db.dirty
 //@   trusted-ensures err == nil ==> r0 != nil && iref(r0) != nil && pg(iref(r0)) == page && tleaf_wf(iref(r0))
 
 // ---------------------------------------------------------------------------------------
@@ -164,7 +165,7 @@ package db
 //@   opt params=self r db rowid cb
 //@   opt results=done err
 //@   modifies * -M:S_db_KeyCol pos halt
-//@   requires [nonnil] self != nil && cb != nil
+//@   requires [nonnil] self != nil && cb != nil && db != nil
 //@   requires [mode] searching && rowid == skey && !halt
 //@   requires [nodewf] tleaf_wf(self)
 //@   requires [cursor] tree_of(pg(self)) == cur_tree && ule(p_lo(pg(self)), TFIRST()) && ule(TFIRST(), p_hi(pg(self))) && pos == TFIRST()
@@ -180,7 +181,7 @@ package db
 //@   uses table_tree table_sorted
 //@   opt results=done err
 //@   modifies * -M:S_db_KeyCol pos halt
-//@   requires l != nil && cb != nil && searching && rowid == skey && !halt
+//@   requires l != nil && cb != nil && db != nil && searching && rowid == skey && !halt
 //@   requires tree_of(pg(l)) == cur_tree && ule(p_lo(pg(l)), TFIRST()) && ule(TFIRST(), p_hi(pg(l))) && pos == TFIRST()
 //@   ensures [found] err == nil && ult(TFIRST(), p_hi(pg(l))) ==> done && halt && pos == old(pos) + 1
 //@   ensures [absent] err == nil && TFIRST() == p_hi(pg(l)) ==> !done && !halt && pos == old(pos)
@@ -194,7 +195,7 @@ package db
 
 //@ func (*db.tableInterior).IterMin$1
 //@   implements functype db.interiorIterCB
-//@   free-requires cb != nil && rowid == skey && searching
+//@   free-requires cb != nil && db != nil && rowid == skey && searching
 
 // ---------------------------------------------------------------------------------------
 // Payload assembly and the public low-level scans.
@@ -213,15 +214,17 @@ package db
 //@ (assert (forall ((rec Slice) (c Slice) (pl S_db_cellPayload)) (! (=> (and (fullpl c pl) (parsed rec c)) (recof rec pl)) :pattern ((fullpl c pl) (parsed rec c)))))
 
 //@ func (*db.Database).page
-//@   props C01 C05 C12
-//@   trusted typestate: the header was validated in this transaction (C15); the pager returns a fresh buffer of one page
+//@   props C01 C05 C08 C12
 //@   pure
-//@   trusted-ensures err == nil ==> len(r0) >= 512 && len(r0) <= 65536 && fresh(r0)
+//@   requires db != nil
+//@   ensures [page] err == nil ==> len(r0) == db.header.PageSize && fresh(r0) && page_of(r0, id, cc_now)
+//@   ensures [size] err == nil ==> len(r0) >= 512 && len(r0) <= 65536
+//@   ensures [invalid] id < 1 ==> err != nil
 
 //@ func db.addOverflow
 //@   props C01 C02 C05 C12 C14
 //@   modifies M:bv8 alloc
-//@   requires wf_payload(pl)
+//@   requires wf_payload(pl) && db != nil
 //@   ensures [len] err == nil ==> len(r0) == pl.Length
 //@   ensures [inline] err == nil && pl.Overflow == 0 ==> r0 == pl.Payload[:pl.Length]
 //@   trusted-ensures [token] err == nil ==> fullpl(r0, pl)
@@ -256,7 +259,7 @@ package db
 
 //@ func (*db.Table).Scan$1
 //@   implements functype db.iterCB
-//@   free-requires cb != nil && t != nil && !searching
+//@   free-requires cb != nil && t != nil && t.db != nil && !searching
 
 // Rowid lookup. The consumer closure counts the delivery itself (it is the end of the chain).
 //@ func (*db.Table).Rowid
@@ -311,7 +314,7 @@ package db
 //@   opt params=self r db cb
 //@   opt results=done err
 //@   modifies * -M:S_db_KeyCol pos halt
-//@   requires [nonnil] self != nil && cb != nil
+//@   requires [nonnil] self != nil && cb != nil && db != nil
 //@   requires [nohalt] !halt
 //@   requires [nodewf] ileaf_wf(self) && iint_wf(self)
 //@   requires [cursor] tree_of(pg(self)) == cur_tree && pos == p_lo(pg(self))
@@ -331,9 +334,10 @@ package db
 //@   loop 1 decreases len(self.cells) - $i
 
 //@ func (*db.Database).openIndex
-//@   props C02 C03 C12 C13
-//@   trusted seam: page cache + decode (see C08, C14)
-//@   modifies * -M:S_db_KeyCol
+//@   props C02 C03 C08 C12 C13
+//@   modifies * -M:S_db_KeyCol hdr_valid
+//@   requires db != nil
+//@   ensures [current] err == nil ==> r0 != nil && repr(r0, page, db.header.ChangeCounter) && db.header.ChangeCounter == cc_now && CACHE_OK(db) && !db.dirty
 //@   trusted-ensures err == nil ==> r0 != nil && iref(r0) != nil && pg(iref(r0)) == page && ileaf_wf(iref(r0)) && iint_wf(iref(r0))
 
 // User-level callback of the index scans.
@@ -400,7 +404,7 @@ package db
 //@ func db.indexBinSearch
 //@   props C03 C13 C12 C05
 //@   modifies M:bv8 alloc
-//@   requires wf_payload(pl) && KEYOK(key)
+//@   requires wf_payload(pl) && KEYOK(key) && db != nil
 //@   ensures [value] err == nil ==> r0 == srch(key, pl)
 //@   ensures [onerror] err != nil ==> r0
 
@@ -409,7 +413,7 @@ package db
 //@   opt params=self r db key cb
 //@   opt results=done err
 //@   modifies * -M:S_db_KeyCol pos halt
-//@   requires [nonnil] self != nil && cb != nil
+//@   requires [nonnil] self != nil && cb != nil && db != nil
 //@   requires [mode] searching && key == ikey && KEYOK(key) && !halt
 //@   requires [nodewf] ileaf_wf(self) && iint_wf(self)
 //@   requires [cursor] tree_of(pg(self)) == cur_tree && ule(p_lo(pg(self)), IFIRST()) && ule(IFIRST(), p_hi(pg(self))) && pos == IFIRST()
@@ -425,7 +429,7 @@ package db
 //@ func (*db.indexLeaf).IterMin$1
 //@   props C03 C13 C12
 //@   modifies M:bv8 alloc box
-//@   requires 0 <= n && n < len(l.cells) && l != nil && ileaf_wf(l) && KEYOK(key)
+//@   requires 0 <= n && n < len(l.cells) && l != nil && db != nil && ileaf_wf(l) && KEYOK(key)
 //@   ensures [latch] old(searchErr) != nil ==> searchErr != nil
 //@   ensures [value] searchErr == nil ==> result == srch(key, l.cells[n])
 
@@ -441,7 +445,7 @@ package db
 //@ func (*db.indexInterior).IterMin$1
 //@   props C03 C13 C12
 //@   modifies M:bv8 alloc box
-//@   requires 0 <= n && n < len(l.cells) && l != nil && iint_wf(l) && KEYOK(key)
+//@   requires 0 <= n && n < len(l.cells) && l != nil && db != nil && iint_wf(l) && KEYOK(key)
 //@   ensures [latch] old(searchErr) != nil ==> searchErr != nil
 //@   ensures [value] searchErr == nil ==> result == srch(key, l.cells[n].payload)
 
